@@ -24,6 +24,38 @@ Proof. vm_compute. reflexivity. Qed.
 Lemma gen_checkex : relay_checkex_sites = rs_checkex_rows.
 Proof. vm_compute. reflexivity. Qed.
 
+Lemma gen_get_body : relay_get_body = rs_getbody_rows.
+Proof. vm_compute. reflexivity. Qed.
+Lemma gen_deletetomb_body : relay_deletetomb_body = rs_tombbody_rows.
+Proof. vm_compute. reflexivity. Qed.
+Lemma gen_gc_sites : relay_gc_sites = rs_gc_rows.
+Proof. vm_compute. reflexivity. Qed.
+
+(* the model's relayItems.Get and relayItems.deleteTomb, case by case as the rows read *)
+Lemma items_get_cases : forall (st : state) (t : key) (stop : bool),
+  match lookup key_eqb t (items st) with
+  | None => items_get st t stop = (st, None)
+  | Some it =>
+      if stop then items_get st t stop = (fst (timer_stop st (it_tm it)), Some (it, snd (timer_stop st (it_tm it))))
+      else items_get st t stop = (st, Some (it, false))
+  end.
+Proof.
+  intros st t stop. unfold items_get. destruct (lookup key_eqb t (items st)) as [it|]; [|reflexivity].
+  destruct stop; [|reflexivity]. destruct (timer_stop st (it_tm it)). reflexivity.
+Qed.
+
+Lemma items_delete_tomb_cases : forall st t,
+  match lookup key_eqb t (items st) with
+  | None => items_delete_tomb st t = st
+  | Some it =>
+      if it_tomb it then items_delete_tomb st t = timer_release (set_items st (remove key_eqb t (items st))) (it_tm it)
+      else items_delete_tomb st t = st
+  end.
+Proof.
+  intros st t. unfold items_delete_tomb. destruct (lookup key_eqb t (items st)) as [it|]; [|reflexivity].
+  destruct (it_tomb it); reflexivity.
+Qed.
+
 (* ---------------------------------------------------------------- stopTimeout per Get site *)
 
 Definition fn_getDestination := rs_s2z "Relayer.getDestination".
